@@ -497,7 +497,8 @@ func handleCallExprMatrixSelectorNode(expr *parser.Call, mQueryReq *structs.Metr
 		mQuery.Groupby = true
 	}
 
-	if step == 0 {
+	// the evaluation advances in whole seconds: a step below one second would never advance
+	if step < 1 {
 		step = getStepValueFromTimeRange(&mQueryReq.TimeRange)
 	}
 
